@@ -141,6 +141,17 @@ def check_c06(tier, seed):
 
 def check_c07(tier, seed):
     def guards(res, reports):
+        # the glue matches the generated error enum without wildcard: E0004 (missing arm = extra variant) or E0599 (no such
+        # variant = missing/renamed variant) on a declaration means the enum does not have exactly the declared variants
+        for did, q in list(res.quarantined.items()):
+            for e in q["errors"]:
+                msg = e.get("message", "")
+                if e.get("code") == "E0004" or (e.get("code") == "E0599" and "no variant" in msg):
+                    v = {"decl": did, "signature": "error-enum-variants-differ-from-declared:%s" % e.get("code"), "input": "<compile>", "observed": msg[:200],
+                         "expected": "exactly one variant per declared validator", "detail": q["decl"], "count": 1}
+                    v["replay"] = write_witness(res, v, None, q["decl"], kind="compile")
+                    res.violations.append(v)
+                    break
         res.guard("multi_violation_executions", sum_guard(reports, "multi_violation"), 200)
         fams = {}
         for r in reports:
